@@ -192,6 +192,36 @@ def effects(ctx: Ctx, fi: FuncInfo, names: Optional[Iterable[str]] = None,
                     rs, side = roles([el], n)
                     out.append(Eff("bind", f"ret[{k}]", "", (rs[0],),
                                    guards_at(n, side), n))
+    # a local with several definitions handed to a named call: the ``phi``
+    # in the argument's role says WHICH values, ``bind <call>#<i>`` says
+    # under which conditions each is chosen (name-free: the variable is
+    # identified by the argument position it feeds)
+    if want:
+        for c in ast.walk(fi.node):
+            if not isinstance(c, ast.Call):
+                continue
+            nm = c.func.attr if isinstance(c.func, ast.Attribute) else (
+                c.func.id if isinstance(c.func, ast.Name) else "")
+            if nm not in want:
+                continue
+            for i, a in enumerate(c.args):
+                ds = [x for x in ast.walk(fi.node) if isinstance(
+                    x, ast.Assign) and len(x.targets) == 1 and isinstance(
+                    x.targets[0], ast.Name) and isinstance(a, ast.Name)
+                    and x.targets[0].id == a.id]
+                cg = guards_at(c, [])
+                if not ds:
+                    if isinstance(a, ast.Starred):
+                        continue
+                    rs, side = roles([a], c)
+                    out.append(Eff("bind", f"{nm}#{i}", "", (rs[0],),
+                                   guards_at(c, side), c))
+                    continue
+                for d in ds:
+                    rs, side = roles([d.value], d)
+                    gs = guards_at(d, side)
+                    out.append(Eff("bind", f"{nm}#{i}", "", (rs[0],),
+                                   gs + [g for g in cg if g not in gs], d))
     if pos:
         for n in ast.walk(fi.node):
             if isinstance(n, ast.AnnAssign) and n.value is not None:
@@ -311,10 +341,16 @@ def check_table(rep: Report, ctx: Ctx, rule: str, table: dict,
         # calls named by an obligation count wherever they occur (also as
         # the value of an assignment), other calls at statement level only
         effs = effects(ctx, fi, names={r[2] for r in table[fn]
-                                       if r[1] == "call" and r[2]})
+                                       if r[1] == "call" and r[2]} | {
+                           r[2].split("#")[0] for r in table[fn]
+                           if r[1] == "bind" and "#" in r[2]})
         for what, kind, name, recv, args, must, may, why in table[fn]:
+            alts: list[tuple[str, ...]] = []
+            if args and isinstance(args[0], tuple):   # alternatives
+                alts = [tuple(abbr(a) for a in alt) for alt in args[1:]]
+                args = args[0]
             expect(rep, rule, fi, effs, f"{fi.name}: {what}", kind=kind,
-                   name=name, recv=abbr(recv),
+                   name=name, recv=abbr(recv), alt_args=alts,
                    args=tuple(abbr(a) for a in args), must=must,
                    may=[] if may == "*" else may, any_guard=may == "*",
                    why=why)
